@@ -298,6 +298,32 @@ def r18_cmp_minmax(sig, body):
     return sig, body, n
 
 
+def r30_method_minmax(sig, body):
+    """R30: `X.min(Y)` / `X.max(Y)` (integers) -> `verif_min(X, Y)` / `verif_max(X, Y)` (std Ord::min/max by contract)"""
+    n = 0
+    guard = 0
+    while guard < 100:
+        guard += 1
+        mask = rsx.code_mask(body)
+        hit = None
+        for m in re.finditer(r'\.\s*(min|max)\s*\(', body):
+            if not mask[m.start()]:
+                continue
+            ls, le = _operand_back(body, mask, m.start())
+            if ls >= le:
+                continue
+            op = m.end() - 1
+            cl = rsx.match_close(body, mask, op, '(', ')')
+            hit = (ls, le, m.group(1), op, cl)
+            break
+        if not hit:
+            break
+        ls, le, which, op, cl = hit
+        body = body[:ls] + 'verif_%s(%s, %s)' % (which, body[ls:le].strip(), body[op + 1:cl].strip()) + body[cl + 1:]
+        n += 1
+    return sig, body, n
+
+
 def r19_closure_contract(sig, body):
     """R19: a one-parameter comparison closure `|v| EXPR` (addresses compared) -> `|v: usize| -> (r__: bool) ensures r__ == (EXPR) { EXPR }`
     (Verus knows nothing about an unannotated closure's result; the contract is the closure's own body, copied)"""
@@ -457,6 +483,301 @@ def r25_stack_index(sig, body):
     return sig, body, n
 
 
+# ----------------------------------------------------------------------------------------------------------------------
+# &str handling for the scanner (unit `scan`): Verus has no `match` on string literals and no `==` on str.
+
+def _str_lits(body):
+    """[(start, end)] of the plain string literals "..." in code (not b"..."), using the comment/string mask"""
+    mask = rsx.code_mask(body)
+    out = []
+    i = 0
+    n = len(body)
+    while i < n:
+        if body[i] == '"' and not mask[i] and (i == 0 or mask[i - 1] or body[i - 1] != '\\'):
+            # start of a literal region (mask 0 run beginning with a quote)
+            if i > 0 and not mask[i - 1]:
+                i += 1
+                continue
+            j = i + 1
+            while j < n and not mask[j]:
+                j += 1
+            # region [i, j) is the literal including both quotes
+            if i > 0 and body[i - 1] == 'b' and (i < 2 or not (body[i - 2].isalnum() or body[i - 2] == '_')):
+                i = j
+                continue
+            out.append((i, j))
+            i = j
+        else:
+            i += 1
+    return out
+
+
+def _unescape_rust(lit):
+    """bytes of the Rust string literal `lit` (including its quotes)"""
+    t = lit[1:-1]
+    out = bytearray()
+    i = 0
+    simple = {'n': 10, 'r': 13, 't': 9, '\\': 92, '0': 0, '"': 34, "'": 39}
+    while i < len(t):
+        c = t[i]
+        if c != '\\':
+            out += c.encode('utf-8')
+            i += 1
+            continue
+        e = t[i + 1]
+        if e in simple:
+            out.append(simple[e])
+            i += 2
+        elif e == 'x':
+            out.append(int(t[i + 2:i + 4], 16))
+            i += 4
+        elif e == 'u':
+            k = t.index('}', i)
+            out += chr(int(t[i + 3:k].replace('_', ''), 16)).encode('utf-8')
+            i = k + 1
+        elif e == '\n':
+            i += 2
+            while i < len(t) and t[i] in ' \t\r\n':
+                i += 1
+        else:
+            raise rsx.ExtractError("string literal with an escape the rewriter does not know: %s" % lit)
+    return bytes(out)
+
+
+def _split_arms(body, mask, ob, cb):
+    """arms of the match block body[ob..cb] ('{' at ob, '}' at cb): [(arm_start, arm_end, pattern, expr)]"""
+    arms = []
+    a = ob + 1
+    while a < cb:
+        while a < cb and body[a].isspace():
+            a += 1
+        if a >= cb:
+            break
+        j = a
+        depth = 0
+        while j < cb:
+            if mask[j]:
+                if body[j] in '([{':
+                    depth += 1
+                elif body[j] in ')]}':
+                    depth -= 1
+                elif depth == 0 and body.startswith('=>', j):
+                    break
+            j += 1
+        if j >= cb:
+            break
+        e = j + 2
+        while e < cb and body[e].isspace():
+            e += 1
+        xs = e
+        if e < cb and body[e] == '{':
+            ce = rsx.match_close(body, mask, e, '{', '}')
+            xe = ce + 1
+            e = xe
+            t = e
+            while t < cb and body[t].isspace():
+                t += 1
+            if t < cb and body[t] == ',':
+                e = t + 1
+        else:
+            depth = 0
+            while e < cb:
+                if mask[e]:
+                    if body[e] in '([{':
+                        depth += 1
+                    elif body[e] in ')]}':
+                        depth -= 1
+                    elif body[e] == ',' and depth == 0:
+                        break
+                e += 1
+            xe = e
+            if e < cb and body[e] == ',':
+                e += 1
+        arms.append((a, e, body[a:j].strip(), body[xs:xe].strip()))
+        a = e
+    return arms
+
+
+def r27_match_on_str(sig, body):
+    """R27: `match S { "a" => A, "b" => B, x => C }` (every pattern a string literal, `_` or a plain binding) ->
+    `{ let verif_m = S; if str_eq(&verif_m, "a") { A } else if str_eq(&verif_m, "b") { B } else { let x = verif_m; C } }`
+    (Rust's match on string literals IS byte-wise comparison in arm order)"""
+    n = 0
+    guard = 0
+    while guard < 200:
+        guard += 1
+        mask = rsx.code_mask(body)
+        hit = None
+        for m in reversed(list(re.finditer(r'\bmatch\b', body))):
+            if not mask[m.start()]:
+                continue
+            k = m.end()
+            depth = 0
+            while k < len(body):
+                if mask[k]:
+                    if body[k] in '([':
+                        depth += 1
+                    elif body[k] in ')]':
+                        depth -= 1
+                    elif body[k] == '{' and depth == 0:
+                        break
+                k += 1
+            if k >= len(body):
+                continue
+            cb = rsx.match_close(body, mask, k, '{', '}')
+            arms = _split_arms(body, mask, k, cb)
+            if not arms:
+                continue
+            pats = [a[2] for a in arms]
+            if not any(p.startswith('"') for p in pats):
+                continue
+            if not all(p.startswith('"') or re.fullmatch(r'[A-Za-z_]\w*', p) for p in pats):
+                continue
+            hit = (m.start(), m.end(), k, cb, arms)
+            break
+        if not hit:
+            break
+        ms, me, k, cb, arms = hit
+        scrut = body[me:k].strip()
+        parts = []
+        els = None
+        for (_a, _e, pat, ex) in arms:
+            blk = ex if ex.startswith('{') else '{ %s }' % ex
+            if pat.startswith('"'):
+                parts.append('if str_eq(&verif_m, %s) %s' % (pat, blk))
+            elif pat == '_':
+                els = blk
+                break
+            else:
+                els = '{ let %s = verif_m; %s }' % (pat, ex)
+                break
+        txt = '{ let verif_m = %s; %s%s }' % (scrut, ' else '.join(parts), (' else ' + els) if els else '')
+        body = body[:ms] + txt + body[cb + 1:]
+        n += 1
+    return sig, body, n
+
+
+def _operand_back(body, mask, pos):
+    """start of the postfix expression that ends right before pos (exclusive), skipping spaces"""
+    i = pos - 1
+    while i >= 0 and body[i].isspace():
+        i -= 1
+    end = i + 1
+    while i >= 0:
+        c = body[i]
+        if c in ')]' and mask[i]:
+            # find matching open
+            depth = 0
+            while i >= 0:
+                if mask[i]:
+                    if body[i] in ')]':
+                        depth += 1
+                    elif body[i] in '([':
+                        depth -= 1
+                        if depth == 0:
+                            break
+                i -= 1
+            i -= 1
+            continue
+        if c.isalnum() or c == '_':
+            while i >= 0 and (body[i].isalnum() or body[i] == '_'):
+                i -= 1
+            if i >= 0 and body[i] == '.':
+                i -= 1
+                continue
+            break
+        if c == '"' and not mask[i]:
+            i -= 1
+            while i >= 0 and not mask[i]:
+                i -= 1
+            break
+        break
+    start = i + 1
+    while start > 0 and body[start - 1] in '&*':
+        start -= 1
+    return start, end
+
+
+def _operand_fwd(body, mask, pos):
+    i = pos
+    n = len(body)
+    while i < n and body[i].isspace():
+        i += 1
+    start = i
+    if i < n and body[i] == '"' and not mask[i]:
+        i += 1
+        while i < n and not mask[i]:
+            i += 1
+        return start, i
+    while i < n and body[i] in '&*':
+        i += 1
+    while i < n:
+        if body[i].isalnum() or body[i] == '_':
+            while i < n and (body[i].isalnum() or body[i] == '_'):
+                i += 1
+            if i < n and body[i] in '([' and mask[i]:
+                i = rsx.match_close(body, mask, i, body[i], ')' if body[i] == '(' else ']') + 1
+            if i < n and body[i] == '.' and i + 1 < n and body[i + 1] != '.':
+                i += 1
+                continue
+            break
+        break
+    return start, i
+
+
+def r29_str_compare(sig, body):
+    """R29: `L == R` / `L != R` where one side is a string literal or L is a `str_slice(..)` -> `str_eq(&L, R)` / `!str_eq(&L, R)`
+    (std's `==` on str is byte-wise comparison)"""
+    n = 0
+    guard = 0
+    while guard < 500:
+        guard += 1
+        mask = rsx.code_mask(body)
+        hit = None
+        for m in re.finditer(r'(==|!=)', body):
+            if not mask[m.start()]:
+                continue
+            if m.start() > 0 and body[m.start() - 1] in '<>=!':
+                continue
+            if m.end() < len(body) and body[m.end()] == '=':
+                continue
+            ls, le = _operand_back(body, mask, m.start())
+            rs, re_ = _operand_fwd(body, mask, m.end())
+            L = body[ls:le].strip()
+            R = body[rs:re_].strip()
+            if not L or not R:
+                continue
+            if R.startswith('"') or L.startswith('"') or L.lstrip('&').startswith('str_slice('):
+                hit = (ls, re_, L, R, m.group(1))
+                break
+        if not hit:
+            break
+        ls, re_, L, R, op = hit
+        if L.startswith('"'):
+            L, R = R, L
+        L = L.lstrip('&')
+        body = body[:ls] + ('!' if op == '!=' else '') + 'str_eq(&%s, %s)' % (L, R) + body[re_:]
+        n += 1
+    return sig, body, n
+
+
+def r28_str_literals(sig, body):
+    """R28: a string literal "…" -> `verif_lit("…", [b0, b1, …])`, the byte array being the literal's UTF-8 bytes computed by
+    the rewriter (Rust's escape rules); the stub returns a value whose spec bytes are exactly that array"""
+    n = 0
+    lits = _str_lits(body)
+    for (a, b) in reversed(lits):
+        lit = body[a:b]
+        # not inside an existing verif_lit( … ) and not a macro format string we do not touch
+        if body[:a].rstrip().endswith('verif_lit('):
+            continue
+        bs = _unescape_rust(lit)
+        arr = '[' + ', '.join('0x%02xu8' % x for x in bs) + ']'
+        body = body[:a] + 'verif_lit(%s, %s)' % (lit, arr) + body[b:]
+        n += 1
+    return sig, body, n
+
+
 RULES = {
     'R1': r1_error_macro,
     'R3': r3_continue_guard,
@@ -481,6 +802,10 @@ RULES = {
     'R24': r24_entry_or_insert,
     'R25': r25_stack_index,
     'R26': r26_precedence_cast,
+    'R27': r27_match_on_str,
+    'R28': r28_str_literals,
+    'R29': r29_str_compare,
+    'R30': r30_method_minmax,
 }
 
 DESCRIPTIONS = {k: (v.__doc__ or '').strip() for k, v in RULES.items()}
